@@ -442,6 +442,52 @@ def _rank2(v: ast.expr):
     return None, txt
 
 
+# --------------------------------------------------------------------------- clause 5: width of the label column, rotation-range convention, option forwarding
+def misc_clause(model, rep, funcs):
+    from ..match import Matcher
+    f = funcs.get("acryo/loader/_base.py::LoaderBase._post_align_multi_templates")
+    if f is not None:
+        # the flat candidate index (up to K*T - 1) is reduced modulo T before it is narrowed to 8 bits
+        cfg = CFG(f.node)
+        narrow = [n for n in cfg.nodes if n.kind == "stmt" and isinstance(n.node, ast.Assign) and isinstance(n.node.value, ast.Call) and
+                  isinstance(n.node.value.func, ast.Attribute) and n.node.value.func.attr == "astype" and "uint8" in norm_src(n.node.value)]
+        rep.instance("S7.decode", f.loc())
+        for nn in narrow:
+            later_mod = [m for m in cfg.nodes if m.kind == "stmt" and ((isinstance(m.node, ast.AugAssign) and isinstance(m.node.op, ast.Mod)) or
+                         (isinstance(m.node, ast.Assign) and isinstance(m.node.value, ast.BinOp) and isinstance(m.node.value.op, ast.Mod)))
+                         and m.lineno > nn.lineno]
+            rep.ob("S7", f.anchor, "the flat candidate index is reduced modulo T before it is narrowed to uint8 (K*T may exceed 255)", not later_mod,
+                   f"`{norm_src(nn.node)}` precedes `{norm_src(later_mod[0].node)}`: indices >= 256 wrap before the modulo, the label is wrong whenever T does not divide 256"
+                   if later_mod else "", node=nn.node, fn=f, clause="3 decoders")
+    try:
+        g = model.func("acryo/_rotation.py::_seq_of_max_and_step_to_quat")
+    except Exception:
+        g = None
+    if g is not None:
+        rep.instance("A.rank", g.loc())
+        ok = Matcher(g).has("from_euler_xyz_coords(np.array($a), 'zyx', degrees=True)")
+        rep.ob("TABLE", g.anchor, "(max, step) ranges are given for the z, y, x axes in that order: the candidates are built by the zyx-coordinate Euler reader", ok,
+               "" if ok else "the ranges no longer go through from_euler_xyz_coords(angs, 'zyx', degrees=True): the first range rotates about another axis than z",
+               node=g.node, fn=g, clause="4 rotation set", stmt="def _seq_of_max_and_step_to_quat convention")
+
+
+def forwarding_obligations(model, rep, fn, clause):
+    """A function that collects options in **kw and delegates to a sibling entry point must forward **kw (otherwise rotations / cutoff / tilt are silently dropped)."""
+    kw = fn.node.args.kwarg.arg if fn.node.args.kwarg is not None else None
+    if kw is None:
+        return 0
+    n = 0
+    for c in calls_in(fn):
+        if isinstance(c.func, ast.Attribute) and isinstance(c.func.value, ast.Name) and c.func.value.id == "self" and \
+                c.func.attr in ("align", "align_multi_templates", "align_no_template", "construct_landscape", "score", "classify"):
+            n += 1
+            rep.instance("FWD", fn.loc(c))
+            ok = any(k.arg is None and isinstance(k.value, ast.Name) and k.value.id == kw for k in c.keywords)
+            rep.ob("FWD", fn.anchor, f"the delegating call `self.{c.func.attr}(...)` forwards **{kw} (rotations, cutoff, tilt, ... reach the model)", ok,
+                   "" if ok else f"`{norm_src(c)[:80]}` drops **{kw}: the delegated alignment runs with default options (identity rotation only)", node=c, fn=fn, clause=clause)
+    return n
+
+
 def check(model, rep, tier):
     rep.decided += ["C06.1 candidate encoding is rotation-major/template-minor for templates and masks", "C06.2 arg-max over one score per candidate; equal-length zips",
                     "C06.3 every decoder uses flat // T for the rotation and flat % T for the template with T of the same model, on every path where K > 1 may hold",
@@ -453,3 +499,12 @@ def check(model, rep, tier):
     argmax_clause(model, rep, funcs)
     decoder_clause(model, rep, funcs)
     rank_clause(model, rep, funcs)
+    misc_clause(model, rep, funcs)
+    nf = 0
+    for a in ("acryo/loader/_base.py::LoaderBase.align", "acryo/loader/_base.py::LoaderBase.align_no_template", "acryo/loader/_group.py::LoaderGroup.align"):
+        try:
+            fa = funcs.get(a) or model.func(a)
+        except Exception:
+            continue
+        nf += forwarding_obligations(model, rep, fa, "2 argmax")
+    rep.floor("FWD", 1, "(LoaderBase.align delegates hetero-template stacks to align_multi_templates)")
